@@ -649,6 +649,20 @@ class Gen:
         h("shout", [], STRING, None, 'pub fn shout() {\n  let shr = shf(fn(shs) { shs <> "!" }, "a")\n  shr\n}',
           lambda i: f"(blk (let (pv {ids['shr']}) (call (fr shf) (_ (lam ({ids['shs']}) (op cc (v {ids['shs']}) s))) (_ s))) (x (v {ids['shr']})))")
         self.feat("local-shadows-toplevel-function")
+        # a generic recursion group of three with a type variable that only one member has (`rlog: List(c)`, fed with []
+        # inside the group), and a caller outside the group using it at other types; definition order is shuffled
+        h("rwalk", [("rx", a), ("rn", INT)], a, None, "pub fn rwalk(rx, rn) {\n  case rn {\n    0 -> rx\n    _ -> rstep(rx, rn - 1)\n  }\n}",
+          lambda i: f"(case ((v {i[1]})) ((pi) (v {i[0]})) ((pd) (call (fr rstep) (_ (v {i[0]})) (_ (op ia (v {i[1]}) i)))))")
+        h("rstep", [("ry", a), ("rm", INT)], a, None, "pub fn rstep(ry, rm) {\n  remit([], ry, rm)\n}",
+          lambda i: f"(call (fr remit) (_ (l ())) (_ (v {i[0]})) (_ (v {i[1]})))")
+        h("remit", [("rlog", L(c)), ("ru", a), ("rk", INT)], a, None, "pub fn remit(rlog, ru, rk) {\n  rwalk(ru, rk)\n}",
+          lambda i: f"(call (fr rwalk) (_ (v {i[1]})) (_ (v {i[2]})))")
+        self.nid += 1
+        rr = self.nid
+        self.binders.append((rr, "rres", "m1", STRING, False))
+        h("rmain", [], STRING, None, 'pub fn rmain() {\n  let rres = remit([1], "s", 3)\n  rres\n}',
+          lambda i: f"(blk (let (pv {rr}) (call (fr remit) (_ (l (i))) (_ s) (_ i))) (x (v {rr})))")
+        self.feat("generic-recursion-group-of-three")
         return hs
 
     FORCE = {"int": ("{} + 0", "(op ia (v {}) i)"), "float": ("{} +. 0.0", "(op fa (v {}) f)"), "string": ('{} <> ""', "(op cc (v {}) s)")}
